@@ -491,10 +491,28 @@ def path(J, ctx, t):
             J.violated += 1
         for ad, rec, nm in zip(ads, (r1, r2), ("first", None)):
             check_adapter(J, ctx, it, ad, info, rec, nm, mk, "file")
+        # a specification given AFTER the file: one (same dict of global options, as cli.py passes it) must still
+        # get the global options, not the file-level parameters
+        r3 = sym_str(ctx, "w", t["L"], alphabet=SEQ_ALPHABET)
+        texts["later_spec"] = r3
+        exp3 = ref_single(t["atype"], "", "", "", t["L"], t["gl"])
+        try:
+            later = it.call_value(f, [r3, t["atype"], gl], {})
+        except allowed as e:
+            return expect_error(J, ctx, e, exp3, mk, "specification after a file: one", [r3], gl["adapter_wildcards"])
+        check_adapter(J, ctx, it, later[0], exp3[1], r3, None, mk, "specification after a file: one")
         J.nontrivial = 1
     elif fam == "xseq":
         path_xseq(J, ctx, it, A, f, t, gl, texts, mk, allowed)
     J.safety(ctx, mk)
+    J.obligations += 1
+    if gl == GLOBALS[t["gl"]]:
+        J.discharged += 1
+    else:
+        J.violated += 1
+        if J.cex is None and ctx.is_sat([]) == "sat":
+            J.cex = mk(ctx.model())
+            J.cex["what"] = "parsing the specification changed the global search parameters: %r" % (gl,)
     J.sample = {"template": t}
 
 
@@ -619,10 +637,13 @@ def replay(cex):
         orig = P.read_adapters_fasta
         P.read_adapters_fasta = lambda path: [("first", cex["spec"]["rec1"]), (None, cex["spec"]["rec2"])]
         spec = t["ftype"] + "adapters.fa" + t["fp"]
+    later = None
     try:
         try:
-            ads = list(P.make_adapters_from_one_specification(spec, t["atype"], dict(gl)))
+            ads = list(P.make_adapters_from_one_specification(spec, t["atype"], gl))
             exc = None
+            if fam == "file" and "later_spec" in cex["spec"]:
+                later = list(P.make_adapters_from_one_specification(cex["spec"]["later_spec"], t["atype"], gl))
         except Exception as e:  # noqa
             ads, exc = None, e
     finally:
@@ -632,11 +653,13 @@ def replay(cex):
         (type(a).__name__, getattr(a, "sequence", None), a.name, getattr(a, "max_error_rate", None), getattr(a, "min_overlap", None), getattr(a, "indels", None),
          getattr(a, "front_required", None), getattr(a, "back_required", None)) for a in ads])
     # the documented expectation for this template, evaluated concretely
-    bad = concrete_violation(t, cex["spec"], ads, exc)
+    bad = concrete_violation(t, cex["spec"], ads, exc, later)
+    if not bad and gl != GLOBALS[t["gl"]]:
+        bad = "the global search parameters were changed by parsing the specification: %r" % (gl,)
     return bool(bad), desc + " ; " + (bad or "consistent with the documented meaning")
 
 
-def concrete_violation(t, texts, ads, exc):
+def concrete_violation(t, texts, ads, exc, later=None):
     fam = t["fam"]
     L = t.get("L", 0)
 
@@ -757,5 +780,10 @@ def concrete_violation(t, texts, ads, exc):
                 bb = single_bad(ad, info, texts[key], nm)
                 if bb:
                     return bb
+            if later is not None and "later_spec" in texts:
+                exp3 = ref_single(t["atype"], "", "", "", L, t["gl"])
+                bb = single_bad(later[0], exp3[1], texts["later_spec"], None)
+                if bb:
+                    return "specification given after the file: one: " + bb
             return None
     return None
